@@ -176,6 +176,11 @@ impl PatProp for Options {
                 return Verdict::Fail(Fail::new("dfa-size-limit-changes-result", format!("no options: {}", c.show()), format!("delegate_dfa_size_limit(1): {}", e.show())));
             }
         }
+        // a clone carries the options of the original
+        let ac = engine::captures_from_pos(&p.opt_ci.clone(), t, pos);
+        if ac != a {
+            return Verdict::Fail(Fail::new("clone-loses-option", format!("case_insensitive(true): {}", a.show()), format!("its clone: {}", ac.show())));
+        }
         if pos == 0 {
             let x = engine::find_iter_spans(&p.opt_ci, t, t.len() + 3);
             let y = engine::find_iter_spans(&p.flag_ci, t, t.len() + 3);
@@ -189,6 +194,10 @@ impl PatProp for Options {
         for (lim, re) in &p.limited {
             let f = engine::find_from_pos(re, t, pos);
             let cc = engine::captures_from_pos(re, t, pos);
+            let fcl = engine::find_from_pos(&re.clone(), t, pos);
+            if fcl != f {
+                return Verdict::Fail(Fail::new("clone-loses-option", format!("backtrack_limit({}): {}", lim, f.show()), format!("its clone: {}", fcl.show())));
+            }
             let want_f: Out<crate::refm::Span> = match &c {
                 Out::Val(v) => Out::Val(v.as_ref().map(|v| v[0]).flatten()),
                 Out::Err(e) => Out::Err(e.clone()),
@@ -268,7 +277,7 @@ fn cfg() -> gen::Cfg {
 pub fn run(ctx: &RunCtx) -> Outcome {
     let p = Options;
     let mut o = Outcome::default();
-    o.rule = "patterns over mixed-case literals {a,B}, classes, \\w, ., \\b, back-references, groups, atomic groups, four look-arounds, quantifiers and scoped (?i:..) / (?-i:..) groups (exhaustive trees by node count, proptest random ASTs); texts over {a,A,b,B} (<=4). Per (pattern, text, offset): RegexBuilder(P).case_insensitive(true) must equal Regex::new(\"(?i)\"+P) on captures (and find_iter); case_insensitive(false) + huge backtrack / size limits and a 1-byte DFA size limit must equal the plain pattern; under backtrack_limit 0 / 2 / 6 find_from_pos, captures_from_pos and is_match each return BacktrackLimitExceeded or the unlimited answer, and agree on which; case_insensitive(true) combined with backtrack_limit (either call order) equals (?i)P under the same limit. Per VM pattern and delegate_size_limit L in {1, 3000, 40000}: the build fails (with InnerError; also when combined with a DFA size limit in either order) iff one of the delegated pieces of the program, built alone through regex::RegexBuilder::size_limit(L), fails. Size probes: 18 large counted repeats (\\w{n}, (?i)\\pL{n}, [a-z]{n}, (?:ab|c){n}) alone and inside five fancy hosts, built without options and with delegate_size_limit(1<<30): the build fails iff the regex crate rejects the repeat with its default / that limit (probes whose verdict changes between 4 MiB and 25 MiB are skipped). Non-trivial = VM-compiled pattern with a letter and a text that matches only case-insensitively. Distinct = distinct (pattern, text, offset).".into();
+    o.rule = "patterns over mixed-case literals {a,B}, classes, \\w, ., \\b, back-references, groups, atomic groups, four look-arounds, quantifiers and scoped (?i:..) / (?-i:..) groups (exhaustive trees by node count, proptest random ASTs); texts over {a,A,b,B} (<=4). Per (pattern, text, offset): RegexBuilder(P).case_insensitive(true) must equal Regex::new(\"(?i)\"+P) on captures (and find_iter); case_insensitive(false) + huge backtrack / size limits and a 1-byte DFA size limit must equal the plain pattern; under backtrack_limit 0 / 2 / 6 find_from_pos, captures_from_pos and is_match each return BacktrackLimitExceeded or the unlimited answer, and agree on which; case_insensitive(true) combined with backtrack_limit (either call order) equals (?i)P under the same limit. Per VM pattern and delegate_size_limit L in {1, 3000, 40000}: the build fails (with InnerError; also when combined with a DFA size limit in either order) iff one of the delegated pieces of the program, built alone through regex::RegexBuilder::size_limit(L), fails. Size probes: 18 large counted repeats (\\w{n}, (?i)\\pL{n}, [a-z]{n}, (?:ab|c){n}) alone and inside five fancy hosts, built without options and with delegate_size_limit(1<<30): the build fails iff the regex crate rejects the repeat with its default / that limit (probes whose verdict changes between 4 MiB and 25 MiB are skipped). Clones of the optioned regexes must answer like the originals; a stage of patterns without any ASCII letter (é, Я) over texts in both cases. Non-trivial = VM-compiled pattern with a letter and a text that matches only case-insensitively. Distinct = distinct (pattern, text, offset).".into();
     o.assumptions = vec![
         "regex::RegexBuilder::size_limit forwards to the same regex-automata NFA size limit that delegate_size_limit is documented to forward to".into(),
         "delegate_dfa_size_limit is only checked for not changing results (the regex crate maps its dfa_size_limit to a different knob)".into(),
@@ -348,6 +357,16 @@ pub fn run(ctx: &RunCtx) -> Outcome {
                 }
                 o.stats.class(if want_fail { "size-probe:default-rejects" } else { "size-probe:default-accepts" });
             }
+        }
+    }
+    // patterns without any ASCII letter (the option must not depend on what the pattern text looks like)
+    if o.violations.is_empty() {
+        let mut c2 = cfg();
+        c2.leaves = vec![Lit('é'), Lit('Я'), Class(false, vec![('é', 'é')]), Any, Backref(1), Empty, Lit('-')];
+        let np = space(&c2, 3, false);
+        let nt = gen::texts(&['é', 'É', 'я', 'Я', '-'], 3);
+        if !stage(ctx, &mut o, &p, "patterns without ASCII letters", &np, &nt) {
+            return o;
         }
     }
     let rcfg = RandCfg { lits: vec!['a', 'B', 'b', 'A'], keepout: true, ..RandCfg::core() };
